@@ -77,16 +77,48 @@ fn do_call(call: &str, t_us: u64, invalid: &str) -> (i64, i64) {
     }
 }
 
+/// What the caller did just before the timed wait (same coroutine / thread):
+///   "recv_data"     a hooked recv on a socket that was woken by data arriving after 3 ms - the rest of the
+///                   recv's wait slice stays behind in the scheduler's syscall timer
+///   "recv_timeout"  a hooked recv that ran into a 30 ms SO_RCVTIMEO - the socket stays registered; the
+///                   peer writes 100 ms later, i.e. during the timed wait that follows
+/// Early resumptions of the waiting coroutine caused by either must not shorten the wait.
+fn pre_step(pre: &str) {
+    if pre.is_empty() {
+        return;
+    }
+    let mut fds = [0 as c_int; 2];
+    unsafe { libc::socketpair(libc::AF_UNIX, libc::SOCK_STREAM, 0, fds.as_mut_ptr()) };
+    let (a, b) = (fds[0], fds[1]);
+    let delay = if pre == "recv_data" { 3 } else { 130 };
+    if pre == "recv_timeout" {
+        let tv = libc::timeval { tv_sec: 0, tv_usec: 30_000 };
+        unsafe { libc::setsockopt(a, libc::SOL_SOCKET, libc::SO_RCVTIMEO, std::ptr::from_ref(&tv).cast(), std::mem::size_of::<libc::timeval>() as u32) };
+    }
+    std::thread::spawn(move || {
+        std::thread::sleep(Duration::from_millis(delay));
+        let x = [7u8];
+        unsafe { libc::write(b, x.as_ptr().cast(), 1) };
+    });
+    let mut buf = [0u8; 8];
+    let t0 = Instant::now();
+    let r = syscall::recv(None, a, buf.as_mut_ptr().cast(), 8, 0);
+    rec(json!({"ev": "pre", "kind": pre, "ret": r, "us": t0.elapsed().as_micros() as u64}));
+    // the descriptors stay open (and registered) for the rest of the scenario
+}
+
 fn run_scenario(sc: &Value) {
     let call = sc["call"].as_str().unwrap().to_string();
     let t_us = sc["t_us"].as_u64().unwrap();
     let invalid = sc.get("invalid").and_then(Value::as_str).unwrap_or("").to_string();
     let in_co = sc.get("where").and_then(Value::as_str) == Some("co");
+    let pre = sc.get("pre").and_then(Value::as_str).unwrap_or("").to_string();
     rec(json!({"ev": "treset", "scenario": sc["id"], "call": call, "t_us": t_us, "invalid": invalid,
                "where": if in_co { "co" } else { "thread" }, "long": sc.get("long").and_then(Value::as_bool).unwrap_or(false)}));
     EventLoops::init(&Config::single());
     std::thread::sleep(Duration::from_millis(5));
     let work = move || {
+        pre_step(&pre);
         rec(json!({"ev": "tw_b"}));
         let t0 = Instant::now();
         let (ret, code) = do_call(&call, t_us, &invalid);
